@@ -19,6 +19,7 @@ func (c *FnCtx) prologue() {
 	fn := c.fn
 	root := c.st
 	c.st = &State{m: map[string]Term{}, parent: root, blk: root.blk}
+	c.assume(app("<=", "0", c.curAlloc())) // references are positive; 0 is nil
 	for i, p := range fn.Params {
 		t := c.declare("p$"+sanitize(p.Name()), c.sortOf(p.Type()))
 		c.vals[p] = t
@@ -136,6 +137,7 @@ func (c *FnCtx) epilogue() {
 		for i, en := range c.spec.Ensures {
 			o := c.oblig(fmt.Sprintf("%s/post#%d", c.name, i+1), "post", en.Src, false)
 			o.Desc = en.Text
+			o.Tags = en.Tags
 			c.assertG(o, c.mustClause(en, env), c.mustGoal(en, env))
 		}
 		if c.spec.HasAssigns && !c.spec.AssignsAll {
@@ -147,28 +149,24 @@ func (c *FnCtx) epilogue() {
 }
 
 // checkFrame: every heap component the body changed must be covered by the assigns clause.
-func (c *FnCtx) checkFrame() {
+// frameFormulas: for every component in comps whose value in st differs from the function entry,
+// the condition "unchanged outside the assigns clause's targets (for objects that existed at entry)".
+// Returns (assumption form with quantifiers, goal form skolemised).
+func (c *FnCtx) frameFormulas(st *State, comps []string) (assume, goal []Term) {
 	env := c.fnEnv(c.entry, nil, false)
 	targets, err := c.assignTargets(c.spec, env)
 	if err != nil {
 		panic(unsupported(err.Error()))
 	}
-	o := c.oblig(c.name+"/assigns", "assigns", c.spec.Src, false)
-	var names []string
-	for comp := range c.compSort {
-		names = append(names, comp)
-	}
-	sortStrings(names)
-	for _, comp := range names {
+	for _, comp := range comps {
 		if comp == "$alloc" {
 			continue
 		}
 		pre := c.get(c.entry, comp)
-		post := c.get(c.st, comp)
+		post := c.get(st, comp)
 		if pre == post {
 			continue
 		}
-		// allowed changes
 		srt := c.compSort[comp]
 		whole := false
 		var refs []Term
@@ -185,7 +183,8 @@ func (c *FnCtx) checkFrame() {
 			continue
 		}
 		if !strings.HasPrefix(srt, "(Array Int ") {
-			c.assert(o, eq(pre, post))
+			assume = append(assume, eq(pre, post))
+			goal = append(goal, eq(pre, post))
 			continue
 		}
 		// only refs that existed before the call matter (fresh objects are free)
@@ -198,8 +197,39 @@ func (c *FnCtx) checkFrame() {
 			return implies(and(excl...), eq(app("select", post, q), app("select", pre, q)))
 		}
 		sk := c.freshConst("sk$frame", "Int")
-		c.assertG(o, fmt.Sprintf("(forall ((q$r Int)) (! %s :pattern ((select %s q$r))))", mk("q$r"), post), mk(sk))
+		assume = append(assume, fmt.Sprintf("(forall ((q$r Int)) (! %s :pattern ((select %s q$r))))", mk("q$r"), post))
+		goal = append(goal, mk(sk))
 	}
+	return
+}
+
+func (c *FnCtx) checkFrame() {
+	o := c.oblig(c.name+"/assigns", "assigns", c.spec.Src, false)
+	var names []string
+	for comp := range c.compSort {
+		names = append(names, comp)
+	}
+	sortStrings(names)
+	as, gs := c.frameFormulas(c.st, names)
+	for i := range as {
+		c.assertG(o, as[i], gs[i])
+	}
+}
+
+// loopFrameInv: in a function with an assigns clause, "the function's frame holds so far" is an
+// inductive invariant of every loop; it is asserted on the entry and back edges and assumed at the head.
+func (c *FnCtx) loopFrameComps(li *LoopInfo) []string {
+	if c.spec == nil || !c.spec.HasAssigns || c.spec.AssignsAll || c.spec.Trusted || li.modAll {
+		return nil
+	}
+	var comps []string
+	for comp := range li.mod {
+		if _, ok := c.compSort[comp]; ok {
+			comps = append(comps, comp)
+		}
+	}
+	sortStrings(comps)
+	return comps
 }
 
 // ---------- loops
@@ -313,6 +343,7 @@ func (c *FnCtx) loopHead(li *LoopInfo) {
 			for k, inv := range li.spec.Invariants {
 				o := c.oblig(fmt.Sprintf("%s/inv#%d/init", c.loopPrefix(li), k+1), "inv-init", inv.Src, false)
 				o.Desc = inv.Text
+				o.Tags = inv.Tags
 				saved := c.st
 				c.st = e.from.out
 				t := c.mustClause(inv, env)
@@ -320,6 +351,28 @@ func (c *FnCtx) loopHead(li *LoopInfo) {
 				c.st = saved
 				e.items = append(e.items, Item{true, t, o, g})
 			}
+		}
+	}
+	fcomps := c.loopFrameComps(li)
+	if len(fcomps) > 0 {
+		for i, p := range h.Preds {
+			if c.blocks[p] == nil {
+				continue
+			}
+			e := c.predEdge(h, i)
+			if e.back {
+				continue
+			}
+			as, gs := c.frameFormulas(e.from.out, fcomps)
+			o := c.oblig(c.loopPrefix(li)+"/frame/init", "inv-init", c.spec.Src, false)
+			o.Desc = "the function's assigns clause holds when the loop is entered"
+			for k := range as {
+				e.items = append(e.items, Item{true, as[k], o, gs[k]})
+			}
+		}
+		as, _ := c.frameFormulas(c.st, fcomps)
+		for _, a := range as {
+			c.assume(a)
 		}
 	}
 	// assume at head
@@ -471,6 +524,7 @@ func (c *FnCtx) loopBackEdges(li *LoopInfo) {
 			for k, inv := range li.spec.Invariants {
 				o := c.oblig(fmt.Sprintf("%s/inv#%d/preserved", c.loopPrefix(li), k+1), "inv-preserved", inv.Src, false)
 				o.Desc = inv.Text
+				o.Tags = inv.Tags
 				e.items = append(e.items, Item{true, c.mustClause(inv, env), o, c.mustGoal(inv, env)})
 			}
 			if li.spec.Decreases != nil {
@@ -478,6 +532,14 @@ func (c *FnCtx) loopBackEdges(li *LoopInfo) {
 				o := c.oblig(c.loopPrefix(li)+"/decreases", "decreases", li.spec.Decreases.Src, false)
 				o.Desc = li.spec.Decreases.Text
 				e.items = append(e.items, Item{true, and(app("<=", "0", li.m0), app("<", t, li.m0)), o, ""})
+			}
+		}
+		if fcomps := c.loopFrameComps(li); len(fcomps) > 0 {
+			as, gs := c.frameFormulas(e.from.out, fcomps)
+			o := c.oblig(c.loopPrefix(li)+"/frame/preserved", "inv-preserved", c.spec.Src, false)
+			o.Desc = "the function's assigns clause is preserved by the loop body"
+			for k := range as {
+				e.items = append(e.items, Item{true, as[k], o, gs[k]})
 			}
 		}
 		for k, ai := range li.autoInv {
@@ -554,6 +616,21 @@ func (c *FnCtx) frameBase(addr ssa.Value, li *LoopInfo) (comp string, base ssa.V
 		}
 		return false
 	}
+	// an object allocated inside the loop did not exist before it: stores into it never touch
+	// pre-existing objects (base == nil marks this case)
+	inner := func(v ssa.Value) bool {
+		switch x := v.(type) {
+		case *ssa.Alloc:
+			return li.body[x.Block()]
+		case *ssa.MakeSlice:
+			return li.body[x.Block()]
+		case *ssa.Slice:
+			if a, ok := x.X.(*ssa.Alloc); ok {
+				return li.body[a.Block()]
+			}
+		}
+		return false
+	}
 	switch x := addr.(type) {
 	case *ssa.FieldAddr:
 		if c.hasLocStatic(x.X) {
@@ -561,13 +638,29 @@ func (c *FnCtx) frameBase(addr ssa.Value, li *LoopInfo) (comp string, base ssa.V
 		}
 		st := x.X.Type().Underlying().(*types.Pointer).Elem()
 		ft := st.Underlying().(*types.Struct).Field(x.Field).Type()
-		if isStruct(ft) || !outside(x.X) {
+		if isStruct(ft) {
+			return "", nil, false
+		}
+		if inner(x.X) {
+			return c.fieldComp(st, x.Field), nil, true
+		}
+		if !outside(x.X) {
 			return "", nil, false
 		}
 		return c.fieldComp(st, x.Field), x.X, true
 	case *ssa.IndexAddr:
-		if s, isS := x.X.Type().Underlying().(*types.Slice); isS && outside(x.X) {
-			return c.elemComp(s.Elem()), x.X, true
+		if s, isS := x.X.Type().Underlying().(*types.Slice); isS {
+			if inner(x.X) {
+				return c.elemComp(s.Elem()), nil, true
+			}
+			if outside(x.X) {
+				return c.elemComp(s.Elem()), x.X, true
+			}
+		}
+		if p, isP := x.X.Type().Underlying().(*types.Pointer); isP {
+			if a, isA := p.Elem().Underlying().(*types.Array); isA && inner(x.X) && !c.hasLocStatic(x.X) {
+				return c.elemComp(a.Elem()), nil, true
+			}
 		}
 	}
 	return "", nil, false
@@ -582,22 +675,38 @@ func (c *FnCtx) loopModified(li *LoopInfo) {
 			switch x := ins.(type) {
 			case *ssa.Store:
 				if comp, base, ok := c.frameBase(x.Addr, li); ok {
-					li.frameRefs[comp] = append(li.frameRefs[comp], base)
+					if base != nil {
+						li.frameRefs[comp] = append(li.frameRefs[comp], base)
+					} else if _, has := li.frameRefs[comp]; !has {
+						li.frameRefs[comp] = nil
+					}
 					li.mod[comp] = true
 				} else {
 					c.rootComps(x.Addr, other)
 				}
 			case *ssa.Alloc:
+				// zero-initialises a fresh object: pre-existing objects are untouched
 				el := x.Type().(*types.Pointer).Elem()
+				tmp := map[string]bool{}
 				if isStruct(el) {
-					c.objectComps(el, other)
+					c.objectComps(el, tmp)
 				} else if a, ok := el.Underlying().(*types.Array); ok {
-					other[c.elemComp(a.Elem())] = true
+					tmp[c.elemComp(a.Elem())] = true
 				} else {
-					other[c.cellComp(el)] = true
+					tmp[c.cellComp(el)] = true
+				}
+				for comp := range tmp {
+					li.mod[comp] = true
+					if _, ok := li.frameRefs[comp]; !ok {
+						li.frameRefs[comp] = nil
+					}
 				}
 			case *ssa.MakeSlice:
-				other[c.elemComp(x.Type().Underlying().(*types.Slice).Elem())] = true
+				comp := c.elemComp(x.Type().Underlying().(*types.Slice).Elem())
+				li.mod[comp] = true
+				if _, ok := li.frameRefs[comp]; !ok {
+					li.frameRefs[comp] = nil
+				}
 			case *ssa.MakeMap:
 				h, v, l := c.mapComps(x.Type().Underlying().(*types.Map))
 				other[h], other[v], other[l] = true, true, true
@@ -619,8 +728,39 @@ func (c *FnCtx) loopModified(li *LoopInfo) {
 					c.chanMods(st.Chan, other)
 				}
 			case *ssa.Call:
-				if c.callMods(&x.Call, other) {
+				// contract calls whose assigns name fields/elements of loop-invariant arguments keep
+				// the inferred frame for every other object
+				var det []modTarget
+				tmp := map[string]bool{}
+				c.modDetail = &det
+				all := c.callMods(&x.Call, tmp)
+				c.modDetail = nil
+				if all {
 					li.modAll = true
+				}
+				detailed := map[string]bool{}
+				for _, d := range det {
+					ok := false
+					if d.base != nil && !d.whole {
+						switch b := d.base.(type) {
+						case *ssa.Parameter, *ssa.FreeVar, *ssa.Global:
+							ok = true
+						case ssa.Instruction:
+							ok = !li.body[b.Block()]
+						}
+					}
+					if ok {
+						li.frameRefs[d.comp] = append(li.frameRefs[d.comp], d.base)
+						li.mod[d.comp] = true
+						detailed[d.comp] = true
+					} else {
+						other[d.comp] = true
+					}
+				}
+				for comp := range tmp {
+					if !detailed[comp] {
+						other[comp] = true
+					}
 				}
 			case *ssa.Defer:
 				if c.callMods(&x.Call, other) {
@@ -717,6 +857,17 @@ func (c *FnCtx) loopFrame(li *LoopInfo) {
 				seen[t] = true
 				excl = append(excl, not(eq("q$r", t)))
 			}
+		}
+		// only objects that existed when the loop was entered are framed
+		excl = append(excl, app("<=", "q$r", c.get(entries[0].from.out, "$alloc")))
+		sameAlloc := true
+		for _, e := range entries[1:] {
+			if c.get(e.from.out, "$alloc") != c.get(entries[0].from.out, "$alloc") {
+				sameAlloc = false
+			}
+		}
+		if !sameAlloc {
+			continue
 		}
 		c.assume(fmt.Sprintf("(forall ((q$r Int)) (! (=> %s (= (select %s q$r) (select %s q$r))) :pattern ((select %s q$r))))", and(excl...), cur, pre, cur))
 	}
